@@ -59,34 +59,62 @@ def read_overlay(path):
     return base, ghosts
 
 
+CONTRACT_LINE = re.compile(r'^\s*(requires|ensures|invariant|invariant_except_break|decreases|recommends)\b')
+
+
 def merge_overlay(code_lines, base, ghosts):
     """Insert ghost blocks into the current code.  Returns (merged_lines, in_sync, tags) where tags[i]
-    is 'c' (code) or 'g' (ghost) for each merged line."""
-    cn = [norm(l) for l in code_lines]
-    bn = [norm(l) for l in base]
-    in_sync = cn == bn
+    is 'c' (code), 'g' (ghost) or 'u' (ghost proof hint whose neighbouring code lines have changed: "unplaced") for each
+    merged line.  Contract clauses (requires / ensures / invariant / decreases and their continuation lines) are never 'u'."""
+    # the numbering of the `__qN` temporaries that the `?` rule introduces is positional: ignore it when aligning, and
+    # rename it in the ghost lines that follow a renumbered temporary
+    qn = lambda l: re.sub(r'__q\d+', '__q', l)
+    cn = [qn(norm(l)) for l in code_lines]
+    bn = [qn(norm(l)) for l in base]
+    in_sync = [norm(l) for l in code_lines] == [norm(l) for l in base]
     pos = {}  # base index -> current index
+    same = set()  # base indices whose line is unchanged
     if in_sync:
         for i in range(len(base) + 1):
             pos[i] = i
+        same = set(range(len(base)))
     else:
         sm = difflib.SequenceMatcher(None, bn, cn, autojunk=False)
         for tag, i1, i2, j1, j2 in sm.get_opcodes():
             if tag == 'equal':
                 for d in range(i2 - i1):
                     pos[i1 + d] = j1 + d
+                    same.add(i1 + d)
             else:
                 for i in range(i1, i2):
                     pos[i] = j1 if i == i1 else j2
         pos[len(base)] = len(code_lines)
+    # __qN renumbering: base temp number -> current temp number, taken from aligned `let __qN =` lines
+    ren = {}
+    for bi in same:
+        mb = re.search(r'\blet (__q\d+)\b', base[bi])
+        mc = re.search(r'\blet (__q\d+)\b', code_lines[pos[bi]])
+        if mb and mc and mb.group(1) != mc.group(1):
+            ren[mb.group(1)] = mc.group(1)
     inserts = {}
     for bi, g in ghosts.items():
-        inserts.setdefault(pos.get(bi, len(code_lines)), []).extend(g)
+        placed = (bi == 0 or (bi - 1) in same) and (bi >= len(base) or bi in same)
+        out = []
+        contract = False
+        for l in g:
+            if ren:
+                l = re.sub(r'__q\d+\b', lambda m: ren.get(m.group(0), m.group(0)), l)
+            if CONTRACT_LINE.match(l):
+                contract = True
+            elif re.match(r'^\s*(proof\b|assert\b|let ghost\b|\{|//)', l):
+                contract = False
+            out.append((l, 'g' if (placed or contract) else 'u'))
+        inserts.setdefault(pos.get(bi, len(code_lines)), []).extend(out)
     merged, tags = [], []
     for j in range(len(code_lines) + 1):
-        for g in inserts.get(j, []):
+        for g, t in inserts.get(j, []):
             merged.append(g)
-            tags.append('g')
+            tags.append(t)
         if j < len(code_lines):
             merged.append(code_lines[j])
             tags.append('c')
@@ -212,11 +240,11 @@ def build_unit(unit, canary=False, mutate=None, strict=True, only=None):
             info['fmt'].update(ef['fmt'])
             info['fmt_nargs'].update(ef['fmt_nargs'])
             info['lits'].update(ef['lits'])
-            marks.append((sum(p.count('\n') + 1 for p in parts), fkey(f), len(merged)))
+            marks.append((sum(p.count('\n') + 1 for p in parts), fkey(f), len(merged), [k for k, t in enumerate(tags) if t == 'u']))
             parts.append('\n'.join(merged))
             info['functions'].append(dict(key=fkey(f), file=f['file'], line=ef['src_line'], sha=ef['sha'], rules=ef['applied'],
                                           props=f.get('props', unit.get('properties', [])), variant=f.get('variant', 'functional'),
-                                          overlay_in_sync=in_sync, ghost_lines=tags.count('g'), code_lines=tags.count('c'),
+                                          overlay_in_sync=in_sync, ghost_lines=tags.count('g') + tags.count('u'), unplaced_hint_lines=tags.count('u'), code_lines=tags.count('c'),
                                           verus_name=f.get('verus_name')))
         if cont:
             parts.append('}')
@@ -314,10 +342,18 @@ def classify(res, info, unit_name):
 
     def fn_of_line(ln):
         best = None
-        for (start, key, n) in marks:
+        for mk in marks:
+            start, key, n = mk[0], mk[1], mk[2]
             if start < ln <= start + n:
                 best = (key, ln - start)
         return best
+
+    def unplaced(ln):
+        for mk in marks:
+            start, key, n = mk[0], mk[1], mk[2]
+            if start < ln <= start + n and len(mk) > 3:
+                return (ln - start - 1) in mk[3]
+        return False
 
     hard = False
     for d in res['diagnostics']:
@@ -347,6 +383,11 @@ def classify(res, info, unit_name):
                    rendered=d.get('rendered', '')[:1500])
         if is_res:
             out['inconclusive'].append('%s: %s' % (rec['fn'], msg))
+        elif is_verif and unplaced(ln):
+            # the failed obligation is a proof hint (assert / lemma call) whose neighbouring code lines have changed: the
+            # hint may simply no longer be where it belongs.  Undecided, not a violation; contract clauses and obligations
+            # of the code itself (postconditions, invariants, callee preconditions, overflow, index) are never treated so.
+            out['inconclusive'].append('%s: proof hint next to changed code no longer holds (%s @ %d: %s) - undecided by this step' % (rec['fn'], msg, ln, txt[:80]))
         elif is_verif:
             out['failed'].append(rec)
         else:
